@@ -135,6 +135,7 @@ int ops_trav(int n, char **a) {
     }
     if (isop(op, "edgesfrom") && n == 2) {
         H3Index *ed = xbuf(6, sizeof(H3Index));
+        memset(ed, 0xA5, 6 * sizeof(H3Index));   // all six slots are outputs: whatever was there must be overwritten
         H3Error e = H3_EXPORT(originToDirectedEdges)(pH(a[1]), ed);
         if (e) outErr(e); else { printf("ok "); outHs(ed, 6); printf("\n"); }
         free(ed);
@@ -154,6 +155,7 @@ int ops_trav(int n, char **a) {
     }
     if (isop(op, "c2vs") && n == 2) {
         H3Index *vs = xbuf(6, sizeof(H3Index));
+        memset(vs, 0xA5, 6 * sizeof(H3Index));   // all six slots are outputs
         H3Error e = H3_EXPORT(cellToVertexes)(pH(a[1]), vs);
         if (e) outErr(e); else { printf("ok "); outHs(vs, 6); printf("\n"); }
         free(vs);
